@@ -104,6 +104,43 @@ class Aff:
     def is_const(self):
         return not self.t
 
+    # ---- comparisons: decided from the extents' premises and what was assumed so far, else a case split (see run_cases)
+    def _cmp(self, o, rel):
+        if not isinstance(o, (Aff, int, _np.integer)):
+            return NotImplemented
+        d = self - Aff.of(o)
+        if d.is_const():
+            return {"ge": d.c >= 0, "gt": d.c > 0, "le": d.c <= 0, "lt": d.c < 0, "eq": d.c == 0, "ne": d.c != 0}[rel]
+        C = CTX[0]
+        if C is None:
+            raise TypeError("comparison of symbolic extents outside a generic-element run")
+        return C.decide(d, rel)
+
+    def __ge__(self, o):
+        return self._cmp(o, "ge")
+
+    def __gt__(self, o):
+        return self._cmp(o, "gt")
+
+    def __le__(self, o):
+        return self._cmp(o, "le")
+
+    def __lt__(self, o):
+        return self._cmp(o, "lt")
+
+    def __eq__(self, o):
+        r = self._cmp(o, "eq")
+        return False if r is NotImplemented else r
+
+    def __ne__(self, o):
+        r = self._cmp(o, "ne")
+        return True if r is NotImplemented else r
+
+    __hash__ = object.__hash__
+
+    def __bool__(self):
+        return bool(self._cmp(0, "ne"))
+
     def key(self):
         return (tuple(sorted(self.t.items())), self.c)
 
@@ -176,6 +213,28 @@ class Ctx:
         self.atoms = {}
         self.ntab = 0  # tables created so far (each GArray gets an id; its atoms are S<id>[...])
         self.allow_extent_exponents = False
+        self.prefix, self.trace, self.assumed = [], [], []  # case split on comparisons of extents / loop variables
+
+    def decide(self, d, rel):
+        """d rel 0 for an affine integer expression d: implied / refuted by the premises, else a case split"""
+        import z3
+
+        env, _ = _z3env()
+        dz = d.z3(env)
+        cond = {"ge": dz >= 0, "gt": dz > 0, "le": dz <= 0, "lt": dz < 0, "eq": dz == 0, "ne": dz != 0}[rel]
+        base = [env(n) >= 0 for n in self.sizes] + [_cons_z3(loop_cons(self.loops) + self.assumed, env)]
+        if check_valid(base, cond, 5000)[0] == "discharged":
+            return True
+        if check_valid(base, z3.Not(cond), 5000)[0] == "discharged":
+            return False
+        if not getattr(self, "cases_enabled", False):
+            raise alg.Undecided("the code compares an extent / loop variable (%r %s 0): this contract does not split cases" % (d, rel))
+        i = len(self.trace)
+        choice = self.prefix[i] if i < len(self.prefix) else True
+        self.trace.append(choice)
+        neg = {"ge": "lt", "gt": "le", "le": "gt", "lt": "ge", "eq": "ne", "ne": "eq"}[rel]
+        self.assumed.append((rel if choice else neg, d, Aff.of(0)))
+        return choice
 
     def atom(self, *a):
         return self.named_atom("S", *a)
@@ -356,7 +415,7 @@ def loop_cons(loops):
 
 
 def _cons_now(C):
-    return loop_cons(C.loops)
+    return loop_cons(C.loops) + list(C.assumed)
 
 
 class GArray:
@@ -638,7 +697,8 @@ def _cons_z3(cons, env, ren=None):
     out = []
     for kind, a, b in cons:
         a, b = (a if ren is None else _rename(a, ren)), (b if ren is None else _rename(b, ren))
-        out.append(a.z3(env) >= b.z3(env) if kind == "ge" else a.z3(env) < b.z3(env))
+        x, y = a.z3(env), b.z3(env)
+        out.append({"ge": x >= y, "lt": x < y, "gt": x > y, "le": x <= y, "eq": x == y, "ne": x != y}[kind])
     return z3.And(out) if out else z3.BoolVal(True)
 
 
@@ -700,3 +760,26 @@ def check_valid(premises, concl, timeout_ms=20000):
     if r == z3.sat:
         return "failed", str(s.model())
     return "undecided", None
+
+
+def run_cases(sizes, body, setup=None, max_cases=16):
+    """run body(C) once per case of the comparisons it makes on extents / loop variables; returns [(C, result)]"""
+    stack, out = [[]], []
+    while stack:
+        prefix = stack.pop()
+        C = Ctx(sizes)
+        C.prefix = prefix
+        C.cases_enabled = True
+        if setup:
+            setup(C)
+        CTX[0] = C
+        try:
+            res = body(C)
+        finally:
+            CTX[0] = None
+        out.append((C, res))
+        for i in range(len(prefix), len(C.trace)):
+            stack.append(C.trace[:i] + [not C.trace[i]])
+        if len(out) > max_cases:
+            raise alg.Undecided("more than %d cases of extent comparisons" % max_cases)
+    return out
